@@ -50,6 +50,18 @@ Definition ocmp (x y : f64) : comparison :=
 Definition oeqb (x y : f64) : bool :=
   match ocmp x y with Eq => true | _ => false end.
 
+(** exact comparison of an integer with a double (NaN greatest, as for OrderedFloat): data.rs
+    [cmp_int_float] (since 1274b83 the integer is no longer converted to a double first) *)
+Definition cmp_int_float (i : Z) (f : f64) : comparison :=
+  match f with
+  | S754_nan => Lt
+  | S754_infinity s => if s then Gt else Lt
+  | S754_zero _ => Z.compare i 0
+  | S754_finite s m e =>
+      let sm := if s then Z.neg m else Z.pos m in
+      if 0 <=? e then Z.compare i (sm * 2 ^ e) else Z.compare (i * 2 ^ (- e)) sm
+  end.
+
 (** truncation toward zero of a finite float, as an integer *)
 Definition ftrunc_Z (x : f64) : Z :=
   match x with
